@@ -394,3 +394,33 @@ package types
 //@   for C09
 //@   requires gp != nil
 //@   ensures r == *gp
+
+// ---------------------------------------------------------------- C19/C11: votes on the wire, duplicate-vote evidence
+
+// ToProto copies every signed field (and index, address, signature) into the wire vote.
+//@ func (vote *Vote) ToProto() (r *kproto.Vote)
+//@   for C11 C13 C19
+//@   ensures vote == nil ==> r == nil
+//@   ensures [signedFieldsCopied] vote != nil ==> fresh(r) && r.Type == vote.Type && r.Height == vote.Height && r.Round == vote.Round && r.Timestamp == vote.Timestamp
+//@   ensures [blockIDCopied] vote != nil ==> content(r.BlockID.Hash) == content(vote.BlockID.Hash) && r.BlockID.PartSetHeader.Total == vote.BlockID.PartsHeader.Total && content(r.BlockID.PartSetHeader.Hash) == content(vote.BlockID.PartsHeader.Hash)
+//@   ensures [signerCopied] vote != nil ==> r.ValidatorIndex == vote.ValidatorIndex && content(r.ValidatorAddress) == content(vote.ValidatorAddress) && r.Signature == vote.Signature
+
+// The sign bytes of a (non-wire) vote, in terms of voteBytes.
+//@ spec func voteSignContent(chainID string, v *Vote) Content = voteBytes(chainID, v.Type, v.Height, v.Round, v.Timestamp, content(v.BlockID.Hash), v.BlockID.PartsHeader.Total, content(v.BlockID.PartsHeader.Hash))
+
+// Evidence built from two conflicting votes: votes ordered by block-id key, powers taken from the set.
+//@ func NewDuplicateVoteEvidence(vote1 *Vote, vote2 *Vote, blockTime time.Time, valSet *ValidatorSet) (r *DuplicateVoteEvidence)
+//@   for C19
+//@   uses strCmpOrder
+//@   requires valSet != nil ==> wfVals(valSet)
+//@   modifies valSet.totalVotingPower
+//@   ensures [nilInputs] vote1 == nil || vote2 == nil || valSet == nil ==> r == nil
+//@   ensures [unknownValidator] vote1 != nil && vote2 != nil && valSet != nil && indexOf(valSet.Validators, vote1.ValidatorAddress, len(valSet.Validators)) < 0 ==> r == nil
+//@   ensures [bothVotesKept] r != nil ==> (r.VoteA == vote1 && r.VoteB == vote2) || (r.VoteA == vote2 && r.VoteB == vote1)
+//@   ensures [orderedByKey] r != nil && keyOf(vote1.BlockID) != keyOf(vote2.BlockID) ==> strings.strCmp(keyOf(r.VoteA.BlockID), keyOf(r.VoteB.BlockID)) == -1
+//@   ensures [powers] r != nil ==> r.TotalVotingPower == sumPow(valSet.Validators, len(valSet.Validators)) && r.ValidatorPower == valSet.Validators[indexOf(valSet.Validators, vote1.ValidatorAddress, len(valSet.Validators))].VotingPower && r.Timestamp == blockTime
+
+//@ func (blockID *BlockID) Equal(other BlockID) (r bool)
+//@   for C02 C19 C13
+//@   requires blockID != nil
+//@   ensures r <==> *blockID == other
